@@ -1,3 +1,4 @@
+import BycycleModel.Routing
 import Proofs.Edges
 /-!
 # C16 — edge recomputation touches only burst edges and only grows bursts
@@ -55,5 +56,9 @@ theorem C16_connected (pc : Bool) (rows : List EdgeRow) (th : CycThresh)
     ∃ j, (rows.map (·.isBurst)).getD j false = true ∧
       ∀ t, min i j ≤ t → t ≤ max i j → (cyclesSpec ((editedSpec pc rows).map (·.toCyc)) th).getD t false = true :=
   edges_connected pc rows th hold i hi
+
+/-- the wiring read off the source: one one-sided recomputation per burst side ('next' before the burst, 'last' after it), each consistency function gets the
+direction it was asked for, the re-labelling the caller's thresholds. -/
+theorem C16_routing : ∀ r ∈ Routing.edges, Routing.holds Slots.routes r = true := by decide +kernel
 
 end Bycycle
